@@ -875,6 +875,9 @@ func judgeSIE(r *Run, j *Judged, c *cls, by map[int]*OResp) {
 	if r.hasStoreFault(e) {
 		return
 	}
+	if r.clientConditionalSince(B, e.SeqInv) {
+		return
+	}
 	// the stored header fields in effect: B's, freshened by the 304s that validated it before this exchange
 	sh, last := r.effectiveStored(B, e.SeqInv)
 	if (sh.Get("Etag") != "" && u.Req.Header.Get("If-None-Match") != sh.Get("Etag")) ||
@@ -962,9 +965,27 @@ func (r *Run) effectiveStored(B *OResp, before uint64) (hdr http.Header, last *O
 	return
 }
 
+// clientConditionalSince: did a client send its own conditional request for B's resource (and get a
+// 304) after B was obtained? What such a 304 means for the stored response is not settled by the
+// statements, so history-derived expectations about the stored state are not made then.
+func (r *Run) clientConditionalSince(B *OResp, before uint64) bool {
+	for _, o := range r.OResps {
+		if !o.Is304 || o.Res != B.Res || o.SeqResp <= B.SeqResp || o.SeqResp >= before {
+			continue
+		}
+		if e := r.exchFor(o.Call.Owner, o.Call.OwnerOp); e != nil && (e.Req.Header.Get("If-None-Match") != "" || e.Req.Header.Get("If-Modified-Since") != "") {
+			return true
+		}
+	}
+	return false
+}
+
 // validationChain: the 304s (in order) whose requests carried B's validators as they stood then.
 func (r *Run) validationChain(B *OResp, before uint64) (hdr http.Header, last *OResp, chain []*OResp) {
 	hdr, last = B.Header.Clone(), B
+	if _, ok := parseDate(hdr.Get("Date")); !ok {
+		hdr.Set("Date", r.httpTime(B.TResp)) // RFC 9110 §6.6.1: a recipient with a clock records the time of receipt
+	}
 	et, lm := B.Header.Get("Etag"), B.Header.Get("Last-Modified")
 	for _, o := range r.OResps {
 		if !o.Is304 || o.Res != B.Res || o.SeqResp <= B.SeqResp || o.SeqResp >= before {
@@ -981,6 +1002,9 @@ func (r *Run) validationChain(B *OResp, before uint64) (hdr http.Header, last *O
 				continue
 			}
 			hdr[k] = v
+		}
+		if _, ok := parseDate(o.Header.Get("Date")); !ok {
+			hdr.Set("Date", r.httpTime(o.TResp))
 		}
 		last = o
 		et2, lm2 := hdr.Get("Etag"), hdr.Get("Last-Modified")
